@@ -45,6 +45,8 @@ SPECTRA = [
     ("fib-plus-1", "x, y, z = y, x + y, z + x"),                                # radicals and 1
     ("rotation", "x, y, z = x - y, x + y, z + 1"),                              # complex pair
     ("3real-half", "x, y, z = y/2, z/2, 3/2*y - x/2 + 1"),                      # scaled casus irreducibilis + inhomogeneous part
+    ("double-one-times-fib", "x, y, z = x + y, x, z + x + 1"),                  # (t-1)**2 * (t**2-t-1): square-free factors of different multiplicity
+    ("double-two-times-sqrt2", "x, y, z, w = 2*y, x, 2*z + w, 2*w + x"),        # (t-2)**2 * (t**2-2)
 ]
 
 
@@ -61,7 +63,7 @@ def designed_cases(seed, tier):
         init = "\n".join(f"{v} = {r.randint(0, 4)}" for v in ("x", "y", "z", "w"))
         text = f"{init}\nwhile true:\n    {upd}\n{noise}end\n"
         prog = parse_program(text)
-        goals = [{"x": 1}, {"z": 1}] if r.random() < 0.5 else [{"y": 1}, {"x": 1}]
+        goals = [{"x": 1}, {"z": 1}] if (r.random() < 0.5 or name.startswith("double")) else [{"y": 1}, {"x": 1}]
         out.append({"id": f"spectra-{name}-{cs}", "text": text, "ast": prog.to_json(), "params": K.frac_enc({}), "inits": K.frac_enc({}),
                     "goals": goals, "N": 6, "fin": [], "numeric": True, "features": ["designed:irrational-spectrum", "spectrum:" + name]})
     return out
